@@ -358,6 +358,86 @@ func runC03(env *Env) {
 		}
 		in.Close()
 	}
+	// a partially supported model: one outgoing flow of the join leads to an element the engine does not execute (a
+	// complex gateway). The token for that flow cannot be placed (an error is traced); the gateway goes on counting
+	// arrivals correctly: its second activation waits for both tokens again
+	for rnd := 0; rnd < 2 && !rep.Saturated(); rnd++ {
+		cs := fmt.Sprintf("join 2->2 in a loop, one outgoing flow leads to a complex gateway (not executable) (round %d)", rnd)
+		env.Current(cs)
+		p := &Prog{}
+		p.Node("start", "start")
+		p.Node("xor", "X")
+		p.Node("par", "F")
+		p.Node("task", "T0")
+		p.Node("task", "T1")
+		p.Node("par", "G")
+		p.Node("task", "U0")
+		p.Node("complex", "CG")
+		l := p.Node("task", "L")
+		l.Results = []string{"again"}
+		d := p.Node("xor", "D")
+		p.Node("end", "end")
+		p.Flow("start", "X", "")
+		p.Flow("X", "F", "")
+		p.Flow("F", "T0", "")
+		p.Flow("F", "T1", "")
+		p.Flow("T0", "G", "")
+		p.Flow("T1", "G", "")
+		p.Flow("G", "U0", "")
+		p.Flow("G", "CG", "")
+		p.Flow("U0", "L", "")
+		p.Flow("L", "D", "")
+		p.Flow("D", "X", "again")
+		d.Default = p.Flow("D", "end", "").ID
+		defs, err := ParseDefs(p.XML(""))
+		if err != nil {
+			rep.Notes = append(rep.Notes, "complex gateway scenario skipped: the document does not parse: "+err.Error())
+			break
+		}
+		in, err := StartInst(defs, InstOpt{Vars: map[string]any{"again": false}})
+		if err != nil {
+			rep.Notes = append(rep.Notes, "complex gateway scenario skipped: no instance: "+err.Error())
+			break
+		}
+		rep.Evaluations++
+		rep.Nontrivial++
+		rep.Count("unsupported_target")
+		problem := ""
+		for a := 0; a < 2 && problem == ""; a++ {
+			if !in.Answer("T0", tmoStep) {
+				problem = fmt.Sprintf("activation %d: T0 not requested", a)
+				break
+			}
+			in.WaitUntil(tmoStep, func(l []Ev) bool { return countEv(l, "incoming", "G") >= 2*a+1 })
+			time.Sleep(5 * time.Millisecond)
+			if u := countEv(in.Log(), "task", "U0"); u != a {
+				problem = fmt.Sprintf("activation %d: U0 requested %d times after one of two arrivals, expected %d", a, u, a)
+				break
+			}
+			if !in.Answer("T1", tmoStep) {
+				problem = fmt.Sprintf("activation %d: T1 not requested", a)
+				break
+			}
+			if !in.WaitUntil(tmoStep, func(l []Ev) bool { return countEv(l, "task", "U0") >= a+1 }) {
+				problem = fmt.Sprintf("activation %d: both tokens arrived, U0 not requested", a)
+				break
+			}
+			in.Answer("U0", tmoStep)
+			if !in.Answer("L", tmoStep, bpmn.DoWithResults(map[string]any{"again": a == 0})) {
+				problem = fmt.Sprintf("activation %d: L not requested", a)
+			}
+		}
+		if problem == "" {
+			time.Sleep(5 * time.Millisecond)
+			if u := countEv(in.Log(), "task", "U0"); u != 2 {
+				problem = fmt.Sprintf("U0 requested %d times over two activations", u)
+			}
+		}
+		if problem != "" {
+			rep.Violate("C03-release", cs, problem+"; log: "+logString(in.Log()))
+		}
+		in.Close()
+	}
 	// two gateways that have both fired before are half full at the same time (two instances of one program, the
 	// arrivals of their second activations interleaved): each gateway keeps its own parked tokens
 	for rnd := 0; rnd < 3 && !rep.Saturated(); rnd++ {
